@@ -26,7 +26,7 @@
 namespace sim {
 
 // prepare the process for API mode: quiet Display, private wisdom directory, simulated seams
-inline void api_begin(const std::string& workdir, uint64_t entropy, int planner) {
+inline void api_begin(const std::string& workdir, uint64_t entropy, int planner, int c2r_scribble = 0) {
     vfps::Display::silent_mode = true;
     setenv("XDG_DATA_HOME", (workdir + "/xdg").c_str(), 1);
     setenv("HOME", workdir.c_str(), 1);
@@ -34,6 +34,7 @@ inline void api_begin(const std::string& workdir, uint64_t entropy, int planner)
     c.active = true;
     c.entropy_seed = entropy;
     c.planner_mode = planner;
+    c.c2r_scribble = c2r_scribble;
     simrt::install(c);
 }
 inline void api_end() { simrt::uninstall(); }
